@@ -1439,3 +1439,11 @@ package mqtt
 //@ callsite mqtt.Server.loadClients C20-sessions-are-restored-first: arg0 == s && !sessionsRestored
 //@ callsite mqtt.Server.loadSubscriptions C20-sessions-are-restored-before-their-subscriptions: arg0 == s && (providesOne(s.hooks, StoredClients) ==> sessionsRestored)
 //@ callsite mqtt.Server.loadInflight C20-sessions-are-restored-before-their-in-flight-messages: arg0 == s && (providesOne(s.hooks, StoredClients) ==> sessionsRestored)
+
+// ======================================================================================
+// C12 (sequential part): the order in which stored in-flight messages are sent again
+// ======================================================================================
+// the comparator GetAll hands to sort.Slice: creation time order (messages are created in publish order)
+// verif:func mqtt.Inflight.GetAll$1
+//@ requires 0 <= i && i < len(m) && 0 <= j && j < len(m)
+//@ ensures C12-stored-messages-are-ordered-by-creation-time: r0 <==> m[i].Created < m[j].Created
